@@ -31,6 +31,7 @@ type Obligation struct {
 }
 
 type Exec struct {
+	resolveLimit  int // >0: while resolving Go variable names at a call site, definitions of the same block before this instruction index count
 	ctx           *Ctx
 	prog          *ssa.Program
 	db            *SpecDB
@@ -1295,6 +1296,18 @@ func calledNames(c *Contract, fname string) []string {
 	}
 	for _, cc := range c.Calls {
 		walk(cc.C.E)
+	}
+	for _, m := range []map[int][]Clause{c.Loops, c.Steps} {
+		var ns []int
+		for n := range m {
+			ns = append(ns, n)
+		}
+		sort.Ints(ns)
+		for _, n := range ns {
+			for _, cl := range m[n] {
+				walk(cl.E)
+			}
+		}
 	}
 	return out
 }
